@@ -59,6 +59,8 @@ vNMap = make([]map[string]float64, 1)
 vNStruct = make(struct{M map[string]int64, S []string})
 vStruct = make(struct{A int64, B string, C []int64, P *int64})
 vPtr = new(int64)
+vType = make(type VT, 1)
+vTypeSt = make(type VTS, make(struct{A int64}))
 vPStruct = new(struct{A int64})
 vChan = make(chan int64, 1)
 vIChan = make(chan interface, 1)
@@ -87,6 +89,7 @@ var c01Operands = []string{"vNil", "vTrue", "vInt", "vNeg", "vBig", "vMax", "vFl
 	"0", "1", "-1", "2", "1.5", `"s"`, `""`, "nil", "true", "[]", "{}", "[1, 2]", `{"k": 1}`, "vList[0]", "vMap.a", "vMod.x", "undefinedName",
 	"func(){ return 1 }", "func(a...){ return a }", "9223372036854775807", "4611686018427387904", "make([]int64, 2)", "new(int64)", "*vPtr", "&vInt",
 	"vStruct.A", "vStruct.C", "vStruct.P", "len(vList)", "vFunc(1)", "gId(vPtr)", "gId(vChan)",
+	"vType", "vTypeSt", "[vType][0]", "make(type VT3, vList)",
 	"vNMap[0]", "vNStruct.M", "vNStruct.S", "make([]map[string]int64, 1)[0]", "make([]map[int64]string, 1)[0]", "make([][]int64, 1)[0]", "gPanicV", "[0, 10, 0]", "[1, 2, 3, 4]"}
 
 // every production of the grammar with operand holes; $A $B $C are replaced ignoring types
@@ -279,7 +282,7 @@ func c01Mutate(r *rand.Rand, src string) string {
 var c01Fixed = []string{
 	"var a =", "x = 1; *x = 2", "m = {\"a\": 1, \"b\": 2}; for k, v in m { delete(m, \"a\"); delete(m, \"b\"); x = [v] }", "x = &nil; *x = 5; nil",
 	"m = {}; x = &m[\"missing\"]; *x = 5; m.other", "try { break } catch e { e.s }", "try { throw 1 } catch e { [e.Message, e.Pos, e.message] }", "make(type X, 1).size", "t = make(type X, vStruct); t.str", "a = [[1, 2]]; m = {}; m[a[0]] = 1", "a = [[1, 2]]; {a[0]: 1}", "a = [{}]; m = {}; delete(m, a[0])", "a = [[1]]; m = {}; m[a[0]]", "a = <", "a, ok = <", "vFunc(...)", "f = func(a){ return a }; f(...)", "gAdd([1, \"a\"]...)", "gAdd([1, 2]...)", "[]int64{4, 5} + [nil]",
-	"p = new(int64); *p = \"s\"", "a = make([]*int64, 1); for x in a { y = x }; y", "a = make([]*int64, 1); *a[0]",
+	"t = make(type T, 1); *t = *t", "t = make(type T, 1); u = make(type U, \"s\"); *t = *u", "t = make(type T, 1); x = *t; x", "p = new(int64); *p = \"s\"", "a = make([]*int64, 1); for x in a { y = x }; y", "a = make([]*int64, 1); *a[0]",
 	"c = make(chan *int64, 1); c <- make([]*int64, 1)[0]; for x in c { y = x; break }; y", "\"s\" * 9223372036854775807", "a = 1; make(a.b)", "a = {\"b\": 1}; make(a.b)",
 	"go gPanicErr(1)", "go gPanicVal(1)", "go func(){ [1][5] }()", "go func(a){ a[0] }(1)", "go vFunc5(1)", "go gAdd(1)", "go gApply(func(){ throw 1 })", "go gAdd(vList...)", "a = []; go range(a...)", "go range([0, 10, 0]...)", "go gPanicV([1]...)", "go gPanicV(1, [2]...)", "defer gPanicV([1]...)",
 	"vNMap[0].x = 1", "vNMap[0].x = \"s\"", "vNStruct.M.k = 1.5", "make([]map[string]int64, 1)[0].k = \"s\"", "vNMap[0][\"x\"] = 1", "vNStruct.S[0] = 1",
